@@ -435,3 +435,18 @@ func C01_Catalog() {
 	agree(p.Name, p.Src, map[string]tengo.Object{"a": &tengo.Int{Value: a}, "b": &tengo.Int{Value: b}, "c": co})
 	vf.Reach("catalog")
 }
+
+// C01_Gen: every program of the generated grammar family (gen.go) against the
+// reference semantics, inputs a, b (full int64) and c symbolic.
+func C01_Gen() {
+	ps := GenPrograms()
+	p := ps[vf.Choice("prog", len(ps))]
+	a, b := vf.Int64("a"), vf.Int64("b")
+	c := vf.Bool("c")
+	var co tengo.Object = tengo.FalseValue
+	if c {
+		co = tengo.TrueValue
+	}
+	agree(p.Name, p.Src, map[string]tengo.Object{"a": &tengo.Int{Value: a}, "b": &tengo.Int{Value: b}, "c": co})
+	vf.Reach("gen")
+}
